@@ -52,8 +52,8 @@ The Python code builds the regular expression
     \A  P0  \.  esc(r1)  \.  …  \.  esc(rn)  \Z          (re.IGNORECASE)
 
 where `r1 … rn` are the labels of `dn` after the first one and `P0` is `[^.]+` (left-most label is
-exactly `*`), `esc(leftmost)` (an `xn--` prefix on either side) or `esc(leftmost)` with every `\*`
-replaced by `[^.]*`.
+exactly `*`), `esc(leftmost)` (an `xn--` prefix, in any capitalisation, on either side) or
+`esc(leftmost)` with every `\*` replaced by `[^.]*`.
 
 *Why the structural matcher below accepts the same language.*  Every piece comes out of
 `dn.split(".")`, so none of the literals contains a dot, and `[^.]+`, `[^.]*` match no dot.  Hence a
@@ -119,7 +119,8 @@ def dnsnameMatch (dn hostname : Str) (maxWildcards : Nat := 1) : Except Exc Bool
     else
       let p : LeftPat :=
         if leftmost = [star] then .plus
-        else if xnPrefix.isPrefixOf leftmost || xnPrefix.isPrefixOf hostname then .literal leftmost
+        -- `leftmost.lower().startswith("xn--") or hostname.lower().startswith("xn--")`
+        else if xnPrefix.isPrefixOf (lower leftmost) || xnPrefix.isPrefixOf (lower hostname) then .literal leftmost
         else .glob leftmost
       .ok (matchPats p remainder hostname)
 
@@ -262,7 +263,9 @@ def beforeLastPercent (s : Str) : Str := ((s.reverse.dropWhile (· != percent)).
 def hostIpOf (hostname : Str) : Option IpAddr :=
   if hostname.contains percent then ipAddress (beforeLastPercent hostname) else ipAddress hostname
 
-/-- the loop over `san`; `none` = the function returned (match), `some dnsnames` = fell through -/
+/-- the loop over `san`; `none` = the function returned (match), `some dnsnames` = fell through.
+`try: … _dnsname_match … except CertificateError: pass` — a dNSName entry that makes `_dnsname_match`
+raise `CertificateError` is passed over like a non-matching one (any other exception propagates) -/
 def sanLoop (hostname : Str) (hostIp : Option IpAddr) :
     List (Str × Str) → List Str → Except Exc (Option (List Str))
   | [], names => .ok (some names)
@@ -271,6 +274,7 @@ def sanLoop (hostname : Str) (hostIp : Option IpAddr) :
       match hostIp with
       | none =>
         match dnsnameMatch value hostname with
+        | .error .certificateError => sanLoop hostname hostIp rest (names ++ [value])   -- `except CertificateError: pass`
         | .error e => .error e
         | .ok true => .ok none
         | .ok false => sanLoop hostname hostIp rest (names ++ [value])
@@ -285,12 +289,14 @@ def sanLoop (hostname : Str) (hostIp : Option IpAddr) :
       | none => sanLoop hostname hostIp rest (names ++ [value])
     else sanLoop hostname hostIp rest names
 
-/-- the loop over the `commonName` attributes (the two nested loops, flattened); `true` = returned -/
+/-- the loop over the `commonName` attributes (the two nested loops, flattened); `true` = returned;
+the same `try / except CertificateError: pass` around `_dnsname_match` as in the SAN loop -/
 def cnLoop (hostname : Str) : List (Str × Str) → Except Exc Bool
   | [] => .ok false
   | (key, value) :: rest =>
     if key = kCN then
       match dnsnameMatch value hostname with
+      | .error .certificateError => cnLoop hostname rest                -- `except CertificateError: pass`
       | .error e => .error e
       | .ok true => .ok true
       | .ok false => cnLoop hostname rest
